@@ -440,3 +440,45 @@ func boundByMapCommaOk(f *FuncInfo, obj types.Object) bool {
 	})
 	return found
 }
+
+// ruleSetAtTarget: R-SET-AT-TARGET (C10) — value writes happen only where the path is exhausted.
+func ruleSetAtTarget(c *Ctx, r *Report) {
+	r.Rule("R-SET-AT-TARGET", "in retrieveNodeContainer the value carried by SetNode is written (unmarshalGeneric / util.UpdateField) only when a value is present and the path is exhausted at this field (len(path.Elem) == to), with the field's own child schema and the parent struct; the field matched is decided by util.PathMatchesPrefix on the field's path tags", 4)
+	f := c.MustFunc(r, "ytypes", "retrieveNodeContainer")
+	if f == nil {
+		return
+	}
+	info := f.Info()
+	n := 0
+	for _, call := range CallsIn(info, f.Decl.Body, P("ytypes")+".unmarshalGeneric", P("util")+".UpdateField") {
+		n++
+		key := fmt.Sprintf("ytypes.retrieveNodeContainer:value-write#%d", n)
+		exhausted, hasVal := false, false
+		for _, ft := range c.FactsAt(f, call, true) {
+			if ft.Kind != "cond" {
+				continue
+			}
+			if ft.Pos {
+				if be, ok := ast.Unparen(ft.Cond).(*ast.BinaryExpr); ok && be.Op == token.EQL && strings.Contains(types.ExprString(be.X), "len(path.Elem)") {
+					exhausted = true
+				}
+			}
+			if !ft.Pos {
+				if cc, ok := ast.Unparen(ft.Cond).(*ast.CallExpr); ok && IsCall(info, cc, P("util")+".IsValueNil") && len(cc.Args) == 1 && isArgsField(info, cc.Args[0], "val") {
+					hasVal = true
+				}
+			}
+		}
+		r.Check(exhausted && hasVal, key, c.Pos(call.Pos()), "only when args.val is present and the path ends at this field", "retrieveNodeContainer writes the SetNode value at a field where the path is not exhausted (or without a value): leaves other than the addressed one are modified")
+		if strings.HasSuffix(FullName(Callee(info, call)), "unmarshalGeneric") {
+			ok := len(call.Args) >= 4 && types.ExprString(call.Args[0]) == "cschema" && paramIndex(f, ObjOf(info, call.Args[1])) == 1
+			r.Check(ok, key+":target", c.Pos(call.Pos()), "unmarshalGeneric(child schema, parent struct, value, encoding)", "the value is unmarshalled with a schema/parent other than the addressed field's")
+		}
+	}
+	if n == 0 {
+		r.Bad("ytypes.retrieveNodeContainer:value-write", c.Pos(f.Decl.Pos()), "retrieveNodeContainer no longer writes leaf values")
+	}
+	// field selection by path tags.
+	calls := CallsIn(info, f.Decl.Body, P("util")+".PathMatchesPrefix")
+	r.Check(len(calls) >= 2, "ytypes.retrieveNodeContainer:field-selection", c.Pos(f.Decl.Pos()), fmt.Sprintf("%d PathMatchesPrefix tests select the field (path and shadow-path tags)", len(calls)), "fields are no longer selected by util.PathMatchesPrefix on their path tags")
+}
